@@ -459,7 +459,7 @@ func c15TraceLine(work, line string, lineNo int, r *rng, maxCases int) {
 			nSlow++
 		}
 		// (slow drifts are sampled more densely: an update that is skipped for small steps shows up there)
-		if nDays == 1 || (changed && emitted < maxCases && (nChanged <= 6 || (slow && r.intn(14) == 0) || r.intn(40) == 0)) {
+		if nDays == 1 || (changed && emitted < maxCases && (nChanged <= 24 || (slow && r.intn(14) == 0) || r.intn(40) == 0)) {
 			emitted++
 			emit(jobj{"k": "gwday", "line": lineNo, "zeit": zeit, "initial": initial, "grw": hx(g.GRW),
 				"w": hxs(d.w), "wmin": hxs(d.wm), "porges": hxs(d.por), "wnor": hxs(d.wnor), "wred": hx(d.wred)})
